@@ -8,6 +8,7 @@ mod c10;
 mod c11;
 mod c12;
 mod c13;
+mod c14;
 mod c16;
 mod c17;
 mod plugins;
@@ -33,6 +34,7 @@ fn main() {
         "amounts" => c06::run(rest),
         "fields" => c05::run(rest),
         "rules" => c04::run(rest),
+        "variants" => c14::run(rest),
         "datetime" => c11::run(rest),
         "validate" => c13::run(rest),
         "parse1" => {
